@@ -9,6 +9,7 @@ Nothing of taskiq is re-implemented here.  Besides the trip the driver reports, 
 conversion table, the REAL answers of taskiq.compat.parse_obj_as for every (annotation of the signature, value on the
 wire) pair, CPython's own opinion about the call (inspect.Signature.bind with tokens) and get_type_hints' keys."""
 import dataclasses
+import datetime
 import inspect
 import json
 import typing
@@ -21,7 +22,7 @@ from taskiq import AsyncBroker, Context, TaskiqDepends  # noqa: F401
 from taskiq.brokers.inmemory_broker import InmemoryResultBackend
 from taskiq.compat import parse_obj_as
 from taskiq.formatters.json_formatter import JSONFormatter
-from taskiq.receiver import Receiver
+from taskiq.receiver import Receiver, params_parser
 from taskiq.serializers.json_serializer import JSONSerializer
 from taskiq.serializers.pickle import PickleSerializer
 
@@ -35,6 +36,13 @@ class M1(pydantic.BaseModel):
 class M2(pydantic.BaseModel):
     items: List[int]
     inner: Optional[M1] = None
+
+
+class M3(pydantic.BaseModel):
+    """fields whose python form is not their JSON form (model_dump(mode="json") matters)"""
+
+    t: typing.Tuple[int, int]
+    when: datetime.date
 
 
 @dataclasses.dataclass
@@ -53,6 +61,17 @@ class X:
     """a class pydantic cannot build a schema for"""
 
 
+class NZ:
+    """a type with its own pydantic validator that accepts None: the only kind of annotation on which passing None
+    through parse_obj_as is visible in the received value (parse_params must leave a None alone)"""
+
+    @classmethod
+    def __get_pydantic_core_schema__(cls, source, handler):
+        from pydantic_core import core_schema
+
+        return core_schema.no_info_plain_validator_function(lambda v: 0 if v is None else int(v))
+
+
 class DepVal:
     """what a generated dependency function returns"""
 
@@ -69,11 +88,11 @@ ANNS = {
     "int": int, "str": str, "float": float, "bool": bool, "List[int]": List[int], "Dict[str,int]": Dict[str, int],
     "Optional[int]": Optional[int], "Any": Any, "M1": M1, "M2": M2, "D1": D1, "D2": D2, "X": X,
     "Union[int,str]": Union[int, str], "None": type(None), "List[M1]": List[M1], "Context": Context,
-    "BaseModel": pydantic.BaseModel,
+    "BaseModel": pydantic.BaseModel, "NZ": NZ, "M3": M3,
 }
 ANN_SRC = dict({k: k for k in ANNS}, **{"Dict[str,int]": "Dict[str, int]", "Union[int,str]": "Union[int, str]",
                                         "BaseModel": "pydantic.BaseModel"})
-MODELS = {"M1": M1, "M2": M2}
+MODELS = {"M1": M1, "M2": M2, "M3": M3}
 DCS = {"D1": D1, "D2": D2}
 
 
@@ -258,8 +277,8 @@ async def trip(case):
         # "everything else untouched" - a list holding a model is left to the formatter)
         out["dict_forms"] = {"args": [canon(dict_form(a)) for a in args],
                              "kwargs": [[k, canon(dict_form(v))] for k, v in kwargs.items()]}
-        out["prepared_forms"] = {"args": [canon(top_form(a)) for a in args],
-                                 "kwargs": [[k, canon(top_form(v))] for k, v in kwargs.items()]}
+    tf = lambda a: ["dctype"] if isinstance(a, type) else canon(top_form(a))  # noqa: E731
+    out["prepared_forms"] = {"args": [tf(a) for a in args], "kwargs": [[k, tf(v)] for k, v in kwargs.items()]}
     try:
         await task.kiq(*args, **kwargs)
     except BaseException as e:  # noqa: BLE001
@@ -296,12 +315,22 @@ async def trip(case):
     out["conv"] = table
     out["pybind"], out["pybind_err"] = py_bind(fn, case, len(loaded.args), list(loaded.kwargs))
     receiver = Receiver(broker, validate_params=bool(case.get("validate", True)))
+    consulted = out["consulted"] = []
+
+    def logging_parse_obj_as(annot, value):
+        names = [k for k, t in ANNS.items() if t == annot]
+        consulted.append([names[0] if names else "?" + repr(annot), canon(value)])
+        return parse_obj_as(annot, value)
+
+    params_parser.parse_obj_as = logging_parse_obj_as
     try:
         await receiver.callback(bm.message)
     except BaseException as e:  # noqa: BLE001
         out["outcome"] = "raised"
         out["exc"] = type(e).__name__
         return out
+    finally:
+        params_parser.parse_obj_as = parse_obj_as
     if CAP:
         out["outcome"] = "invoked"
         out["calls"] = len(CAP)
